@@ -362,3 +362,21 @@ fn format_hover_for_entity<TCompilationProfile: CompilationProfile>(
     };
     format!("Object **{object_entity_name}**{description}")
 }
+
+#[cfg(feature = "isographlabs_isograph_verif")]
+pub mod verif_hook {
+    //! Verification hooks: access to the private position-to-offset functions.
+    use super::*;
+
+    pub fn get_index_of_line_char(source: &str, line_char: LineChar) -> u32 {
+        super::get_index_of_line_char(source, line_char)
+    }
+
+    pub fn find_iso_literal_extraction_under_cursor(
+        target_line_char: LineChar,
+        content: &str,
+        extracted_items: &[IsoLiteralExtraction],
+    ) -> Option<(IsoLiteralExtraction, u32)> {
+        super::find_iso_literal_extraction_under_cursor(target_line_char, content, extracted_items)
+    }
+}
